@@ -64,10 +64,16 @@ package transforms
 //@   trusted floating-point DCT; only the frame is used
 //@   modifies mem(*input)
 
+// The medians are verified to leave the caller's coefficients alone (the bits are assembled from them AFTERWARDS, in row-major
+// frequency order): the selection runs on a private copy. Only the quick-select itself is a trusted frame.
 //@ func MedianOfPixels64
-//@   trusted quick-select on a private copy; only purity is used
-//@   pure
+//@   props C19
+//@   modifies nothing
 
 //@ func MedianOfPixels256
-//@   trusted quick-select on a private copy; only purity is used
-//@   pure
+//@   props C19
+//@   modifies nothing
+
+//@ func quickSelectMedian
+//@   trusted floating-point quick-select; only the frame (permutes the slice it is given) is used
+//@   modifies mem(sequence)
